@@ -1,5 +1,248 @@
 package main
 
-// verifyRelational is the two-run product of DESIGN §2.10 (implemented in relational2.go once
-// the single-run engine is stable).
-func (x *Exec) verifyRelational() verifyResult { return verifyResult{} }
+import (
+	"fmt"
+	"go/types"
+	"strings"
+)
+
+// Two-run (relational) obligations, DESIGN §2.10.
+//
+//   //@ relational[C08] label varies rtt: hyp ==> r2(l.estimatedLimit) <= r1(l.estimatedLimit)
+//
+// The function is executed twice from ONE symbolic pre-state; the parameters listed after
+// `varies` get independent values in the second run. r1(e) / r2(e) denote e evaluated in the
+// final state of run 1 / run 2 (parameters resolve to that run's values); old(e) is the shared
+// pre-state. All return paths of a run are merged into one disjunction
+//      OR_i ( path_i  AND  obs = value_of_obs_on_path_i )
+// so the obligation has size |paths1| + |paths2|, not their product.
+
+type relObs struct {
+	key  string
+	expr *SExpr
+	typ  types.Type
+	c    [2]Val // observation constants for run 1 / run 2
+}
+
+func collectObs(e *SExpr, out map[string]*relObs, order *[]string) {
+	if e.Op == "call" && e.Args[0].Op == "id" && (e.Args[0].Tok == "r1" || e.Args[0].Tok == "r2") && len(e.Args) == 2 {
+		k := e.Args[1].String()
+		if _, ok := out[k]; !ok {
+			out[k] = &relObs{key: k, expr: e.Args[1]}
+			*order = append(*order, k)
+		}
+		return
+	}
+	for _, a := range e.Args {
+		collectObs(a, out, order)
+	}
+}
+
+type relPath struct {
+	pc  []string
+	obs map[string]Val
+}
+
+func commonPrefix(a, b []string) int {
+	n := 0
+	for n < len(a) && n < len(b) && a[n] == b[n] {
+		n++
+	}
+	return n
+}
+
+func (x *Exec) verifyRelational() (res verifyResult) {
+	defer func() {
+		if r := recover(); r != nil {
+			switch e := r.(type) {
+			case unsupportedErr:
+				res.Unsupported = "relational: " + e.msg
+			case specErr:
+				res.Unsupported = "relational spec error: " + e.msg
+			default:
+				panic(r)
+			}
+		}
+		res.Obls = x.obls
+		for n := range x.notes {
+			res.Notes = append(res.Notes, n)
+		}
+		decl := x.D.text()
+		for _, o := range x.obls {
+			o.DeclText = decl
+			o.NeedsSqrt = x.usedSqrt
+			o.NeedsLog = x.usedLog
+		}
+	}()
+	x.relMode = true
+	x.findLoops()
+	for _, cl := range x.spec.Relational {
+		if !hasProp(cl.Props, x.prop) {
+			continue
+		}
+		x.relClause(cl)
+	}
+	return
+}
+
+func (x *Exec) relClause(cl *Clause) {
+	// the clause text was parsed as a whole expression; "varies a, b:" is carried in the label text
+	varies := map[string]bool{}
+	for _, v := range cl.Varies {
+		varies[v] = true
+	}
+	obsMap := map[string]*relObs{}
+	var order []string
+	collectObs(cl.Expr, obsMap, &order)
+
+	x.params = map[string]Val{}
+	x.inputs = map[string]Val{}
+	x.binds = map[string]Val{}
+	s0 := x.initState("")
+	env := x.specEnv(s0, s0.heap, nil)
+	for _, m := range x.spec.Maintains {
+		v := env.eval(mustParse(m.Text))
+		s0.assume(env.invOf(v, ""))
+	}
+	env.assumeHeld = true
+	for _, c := range x.spec.Requires {
+		s0.assume(env.evalBool(c.Expr))
+	}
+	env.assumeHeld = false
+	x.entryHeld = map[string]bool{}
+	for k := range s0.held {
+		x.entryHeld[k] = true
+	}
+	x.entryHeap = copyHeap(s0.heap)
+	params1 := map[string]Val{}
+	for k, v := range x.params {
+		params1[k] = v
+	}
+
+	runOnce := func(start *State, params map[string]Val) []relPath {
+		var paths []relPath
+		x.params = params
+		x.callCount = map[string]int{}
+		x.retHook = func(s *State, res []Val) {
+			e := x.specEnv(s, x.entryHeap, x.resultVars(res))
+			rp := relPath{pc: append([]string(nil), s.pc...), obs: map[string]Val{}}
+			for _, k := range order {
+				v := e.eval(obsMap[k].expr)
+				if isUntyped(v.Typ) {
+					specFail("relational observation %s has no type", k)
+				}
+				rp.obs[k] = v
+				obsMap[k].typ = v.Typ
+			}
+			// evaluating observations may have appended range facts
+			rp.pc = append([]string(nil), s.pc...)
+			paths = append(paths, rp)
+		}
+		x.paths = 0
+		x.run(start)
+		x.retHook = nil
+		return paths
+	}
+
+	s1 := s0.clone()
+	paths1 := runOnce(s1, params1)
+
+	// second run: same pre-state, fresh values for the varied parameters
+	s2 := s0.clone()
+	params2 := map[string]Val{}
+	for k, v := range params1 {
+		params2[k] = v
+	}
+	f2 := s2.top()
+	for i, p := range x.fn.Params {
+		name := p.Name()
+		if !varies[name] {
+			continue
+		}
+		nv := x.freshVal(s2, p.Type(), "p."+name+"#2")
+		f2.regs[p] = nv
+		params2[name] = nv
+		if i == 0 && x.fn.Signature.Recv() != nil {
+			params2["this"] = nv
+		}
+	}
+	x.params = params2
+	env2 := x.specEnv(s2, s2.heap, nil)
+	for _, c := range x.spec.Requires {
+		s2.assume(env2.evalBool(c.Expr))
+	}
+	base2 := len(s2.pc)
+	_ = base2
+	paths2 := runOnce(s2, params2)
+
+	if len(paths1) == 0 || len(paths2) == 0 {
+		specFail("relational: no return path")
+	}
+	// observation constants
+	for _, k := range order {
+		o := obsMap[k]
+		for r := 0; r < 2; r++ {
+			v := Val{Typ: o.typ}
+			for _, lf := range leavesOf(o.typ) {
+				v.L = append(v.L, x.D.fresh(fmt.Sprintf("obs%d", r+1), lf.Sort))
+			}
+			o.c[r] = v
+		}
+	}
+	// pair product: one small conjunctive obligation per (path of run 1, path of run 2)
+	fname := fnName(x.fn)
+	kf, hasKF := x.P.findings[fname+"/relational:"+cl.Label]
+	base := len(s0.pc)
+	n := 0
+	for i, p1 := range paths1 {
+		for j, p2 := range paths2 {
+			pc := append([]string(nil), p1.pc...)
+			// p2.pc = s0.pc + run-2 parameter facts + run-2 path; skip the shared prefix
+			pc = append(pc, p2.pc[base:]...)
+			for _, k := range order {
+				o := obsMap[k]
+				for l := range o.c[0].L {
+					pc = append(pc, sEq(o.c[0].L[l], p1.obs[k].L[l]))
+					pc = append(pc, sEq(o.c[1].L[l], p2.obs[k].L[l]))
+				}
+			}
+			sg := s0.clone()
+			sg.pc = pc
+			genv := &Env{x: x, s: sg, heap: x.entryHeap, old: x.entryHeap, vars: map[string]Val{}, rel: obsMap}
+			for k, v := range params1 {
+				genv.vars[k] = v
+			}
+			goal := genv.evalBool(cl.Expr)
+			if hasKF && kf.Region != "" {
+				region := genv.evalBool(mustParse(kf.Region))
+				x.obls = append(x.obls, &Obligation{Name: fname + "/finding:" + cl.Label, Func: fname, Kind: "finding", Label: cl.Label, Props: cl.Props,
+					PathID: i*1000 + j, PC: sg.pc, Goal: sOr(sNot(region), goal), Clause: cl, Inputs: x.inputs})
+				goal = sOr(region, goal)
+			}
+			x.obls = append(x.obls, &Obligation{Name: fname + "/relational:" + cl.Label, Func: fname, Kind: "relational", Label: cl.Label, Props: cl.Props,
+				PathID: i*1000 + j, PC: sg.pc, Goal: goal, Clause: cl, Inputs: x.inputs,
+				Note: fmt.Sprintf("two-run product, path pair (%d,%d) of %dx%d", i, j, len(paths1), len(paths2))})
+			n++
+		}
+	}
+	x.note(fmt.Sprintf("relational %s: %d x %d return paths = %d path-pair obligations", cl.Label, len(paths1), len(paths2), n))
+}
+
+func parseVaries(text string) ([]string, string) {
+	// "varies a, b: expr"
+	t := strings.TrimSpace(text)
+	if !strings.HasPrefix(t, "varies ") {
+		return nil, text
+	}
+	i := strings.Index(t, ":")
+	if i < 0 {
+		return nil, text
+	}
+	var vs []string
+	for _, v := range strings.Split(t[7:i], ",") {
+		if v = strings.TrimSpace(v); v != "" {
+			vs = append(vs, v)
+		}
+	}
+	return vs, strings.TrimSpace(t[i+1:])
+}
